@@ -523,7 +523,7 @@ def replay(f):
         check_pickle(out, rng, i["spec"])
     elif fam.startswith("roundtrip"):
         check_roundtrip_types(out, rng, i["spec"])
-    out.failures = [x for x in out.failures if x["family"] == fam] or out.failures
+    out.failures = [x for x in out.failures if x["family"] == fam]
     return out
 
 
